@@ -360,7 +360,7 @@ fn all_vectors(max_len: usize, extra: &[f64]) -> Vec<Vec<Fb>> {
 }
 
 pub fn run_all(ctx: &mut Ctx, replay: Option<&Path>) {
-    ctx.rule("single: case = triple of f64 inputs (+ a finite scalar): construction legality and bit-exact round trip, agreement of cmp/partial_cmp/==/</<=/> with the numeric order on all pairs (plus Default and INFINITY), antisymmetry/transitivity on all triples, sort/min/max vs sorting the raw values, closure of + - (objective, objective), * / (objective, finite scalar) and unary -; non-trivial = a triple involving +-0, inf or MAX. multi: case = triple of vectors: both constructors, Pareto dominance vs an independent reference on all pairs, reflexivity, Equal <=> ==, antisymmetry, transitivity of < and <=; non-trivial = has a trade-off pair of length >= 2, a length mismatch or a dominance; distinct by case");
+    ctx.rule("single: case = triple of f64 inputs (+ a finite scalar): construction legality and bit-exact round trip, agreement of cmp/partial_cmp/==/</<=/> with the numeric order on all pairs (plus Default and INFINITY), antisymmetry/transitivity on all triples, sort/min/max vs sorting the raw values, closure of + - (objective, objective), * / (objective, finite scalar) and unary -; non-trivial = a triple involving +-0, inf or MAX. multi: case = triple of vectors (length 0-3 exhaustively and randomly; random long vectors of 4-8 and 30-70 components with near copies that differ in up to three positions): both constructors, Pareto dominance vs an independent reference on all pairs, reflexivity, Equal <=> ==, antisymmetry, transitivity of < and <=; non-trivial = has a trade-off pair of length >= 2, a length mismatch or a dominance; distinct by case");
     ctx.assume("scalars for * and / are finite f64 (NaN/inf scalars are outside the property)");
     let s = SingleCheck;
     let m = MultiCheck;
@@ -411,4 +411,26 @@ pub fn run_all(ctx: &mut Ctx, replay: Option<&Path>) {
     );
     let n = ctx.tier.pick(60_000, 300_000);
     ctx.random(&m, (vec_strategy(), vec_strategy(), vec_strategy()).prop_map(|(a, b, c)| MultiCase { a, b, c }), n);
+    // long vectors (4-8 and 30-70 objectives, incl. huge negative components next to +inf) and near copies of them
+    // that differ in a few positions - independently drawn long vectors are almost always incomparable
+    let long_el = prop_oneof![6 => proptest::sample::select(vec![-1.0, 0.0, 1.0, 2.0, 5.0]), 1 => Just(-1e308), 1 => Just(1e308), 1 => Just(f64::INFINITY), 1 => Just(f64::MAX)].prop_map(Fb::of);
+    let long = prop_oneof![2 => 4usize..9, 1 => 30usize..71].prop_flat_map(move |len| proptest::collection::vec(long_el.clone(), len));
+    let edit = proptest::collection::vec((any::<u16>(), prop_oneof![Just(-1.0), Just(0.0), Just(1.0), Just(2.0), Just(5.0), Just(f64::INFINITY)]), 0..4);
+    ctx.random(
+        &m,
+        (long, edit.clone(), edit).prop_map(|(a, e1, e2)| {
+            let apply = |base: &Vec<Fb>, e: &Vec<(u16, f64)>| {
+                let mut v = base.clone();
+                for (i, x) in e {
+                    let k = *i as usize % v.len();
+                    v[k] = Fb::of(*x);
+                }
+                v
+            };
+            let b = apply(&a, &e1);
+            let c = apply(&b, &e2);
+            MultiCase { a, b, c }
+        }),
+        n / 2,
+    );
 }
